@@ -126,6 +126,14 @@ func replaySeeded(id string, p props.Prop, r *core.Result) {
 				}()
 				p.Run(x, sub)
 			}()
+			// a listed known finding is there on every tree: it does not count as detecting the seeded change
+			var fresh []core.Finding
+			for _, f := range sub.Findings {
+				if !core.IsKnown(id, f) {
+					fresh = append(fresh, f)
+				}
+			}
+			sub.Findings = fresh
 			if len(sub.Findings) > 0 {
 				detected++
 				rs.OK(1)
@@ -155,8 +163,10 @@ func firstLine(s string) string {
 // is clean for this property, so it is skipped as soon as the main run has a finding. A variant whose patch no
 // longer applies is skipped.
 func replayBenign(id string, r *core.Result) {
-	if len(r.Findings) > 0 {
-		return
+	for _, f := range r.Findings {
+		if !core.IsKnown(id, f) {
+			return
+		}
 	}
 	rs := r.Rule("selftest:benign", "negative control: stored behaviour-preserving variants of the current tree (renames, helper extraction/inlining, restructured control flow) must not be reported")
 	files, _ := filepath.Glob(filepath.Join(core.VerifDir(), "benign", "*.diff"))
